@@ -230,9 +230,11 @@ where
     // We accumulate all validity checks into single branches at the end in order to
     // keep the loop itself branchless.
     let mut laps_or_zeros = 0usize;
+    let mut num_symbols = 0usize;
     let mut accum = Probability::zero();
 
     for probability in probabilities {
+        num_symbols += 1;
         let old_accum = accum;
         accum = accum.wrapping_add(probability.borrow());
         laps_or_zeros += (accum <= old_accum) as usize;
@@ -255,7 +257,12 @@ where
         let symbol = symbols.next().ok_or(())?;
         let probability = total.wrapping_sub(&accum);
         operation(symbol, accum, probability)?;
-    } else if accum != total || laps_or_zeros != (PRECISION == Probability::BITS) as usize {
+    } else if accum != total
+        || laps_or_zeros != (PRECISION == Probability::BITS) as usize
+        || num_symbols < 2
+    {
+        // (A single symbol carrying the whole probability mass is a degenerate model, which
+        // `constriction` does not support; at full precision its probability would wrap to zero.)
         return Err(());
     }
 
